@@ -488,6 +488,9 @@ func runPluginCase4(c *Ctx, name string, args []string) {
 		return
 	}
 	ok := res.SetupErr == "" && !res.NilHandler
+	if res.ReconfigChanged != "" {
+		c.vio("C14", "identity-changed-by-rejected-setup", fmt.Sprintf("%s %v (DHCPv4): after further set-up calls that were all rejected, the running instance answers the same request differently: %s", name, args, res.ReconfigChanged), input)
+	}
 	if res.LoadAccepted {
 		c.vio("C19", "rejected-config-loaded", fmt.Sprintf("%s %v (DHCPv4): setup returns the error %q, yet plugins.LoadPlugins accepts the configuration and the server would start with it", name, args, res.SetupErr), input)
 	}
@@ -708,6 +711,9 @@ func runPluginCase6(c *Ctx, name string, args []string) {
 		return
 	}
 	ok := res.SetupErr == "" && !res.NilHandler
+	if res.ReconfigChanged != "" {
+		c.vio("C14", "identity-changed-by-rejected-setup", fmt.Sprintf("%s %v (DHCPv6): after further set-up calls that were all rejected, the running instance answers the same request differently: %s", name, args, res.ReconfigChanged), input)
+	}
 	if res.LoadAccepted {
 		c.vio("C19", "rejected-config-loaded", fmt.Sprintf("%s %v (DHCPv6): setup returns the error %q, yet plugins.LoadPlugins accepts the configuration and the server would start with it", name, args, res.SetupErr), input)
 	}
